@@ -177,3 +177,28 @@ for _k, _extra in {
            "keeps its number and is never written again.",
 }.items():
     CHECKS[_k]["text"] += " " + _extra
+
+# rounds 3-5 of seeded changes
+for _k, _extra in {
+    "C01": "A failpoint makes the solver raise at a random call; what calculate_residual hands on carries the certificate; a group is re-evaluated after a fault; "
+           "results of in-situ runs are judged with C03's result identity; hand-built reductions with two relations / a constraint on different intervals.",
+    "C02": "All four data layouts; every second scheme is optimised twice as the same object; several weight items per dataset; up to two relations; expression twins.",
+    "C03": "Hand-built mixed-membership groups per label pool (incl. dotted labels) and single-clp schemes; NaN / inf in a reported variable of a well-conditioned case is a violation.",
+    "C04": "Filled dataset models are re-evaluated after in-place parameter changes; one rate in twelve is 1e-12..1e-8 per time unit.",
+    "C05": "The returned matrix is judged directly when the kernel-call structure differs; filled models are re-evaluated after in-place IRF parameter changes.",
+    "C07": "Reference and tolerance below the skewness switch follow the statement's continuity bound (theta formed in 40 digits).",
+    "C08": "Constrained clp missing from the first dataset of a group; item intervals reassigned after construction and a first use.",
+    "C09": "In-situ cases with index-dependent matrices.",
+    "C10": "Hash-seed sweep (fresh processes) over a scheme with four dataset groups; walk kind with spectral_axis_scale; builtin walk exceptions are judged.",
+    "C11": "All-label and ParameterHistory round trips incl. fixed non-negative parameters; yml specifications (free set and bounds as declared); released expressions.",
+    "C12": "Non-negative expression parameters; in-situ schemes with an expression-only dataset judged by the reference objective.",
+    "C13": "The |value| cap of log-space standard errors is admitted only where documented.",
+    "C14": "Families with spectral_axis_scale, a single compartment in unlinked datasets, and a transposed weighted dataset reused across both fits.",
+    "C15": "Message-less and multi-line injected exceptions; a scheme with three dataset groups.",
+    "C16": "Expressions assigned after construction; in-memory specifications loaded twice; floor-division and other operator texts in yml expressions.",
+    "C17": "Dotted dataset labels; a different result saved over the loaded folder and re-loaded (failures of the allowed overwrite are violations).",
+    "C18": "Mapping form of import_data; extension-less file targets and dotted folder names in the refusal matrix.",
+    "C19": "One short name carries an upper-case letter.",
+    "C20": "Group-prefix / child-of-leaf parameter references; one model object validated repeatedly with changing parameter sets.",
+}.items():
+    CHECKS[_k]["text"] += " " + _extra
